@@ -259,12 +259,16 @@ def run_family(prop, family, seed, tier, workdir, model_ok, only_case=None):
 
 def minimise(prop, family, entry, workdir, model_ok, kind):
     """Greedy shrink of a failing / disagreeing case while the same thing persists."""
+    want = {k for k, _ in entry.get("failures", [])}
+
     def still(c):
         o = observe_all(family, [c])[0]
         if kind == "oracle":
             if special(o):
-                return o, ("__hang__" in o or "__crash__" in o)
-            return o, bool(family.oracle(c, o))
+                keys = {"hang"} if "__hang__" in o else ({"crash"} if "__crash__" in o else set())
+                return o, bool(keys & want)
+            # a smaller case only counts if it fails in (one of) the same way(s)
+            return o, bool({str(k) for k, _ in (family.oracle(c, o) or [])} & want)
         if special(o) or not model_ok:
             return o, False
         t = family.coq_check(c, o)
